@@ -116,7 +116,11 @@ def gen_mol_spec(rng, cfg, small=False):
     elif r > 0.994 and not small:
         # around the V2000 size limit (999 atoms / bonds): the V2000 writers must refuse cleanly, V3000 and MRV must carry it
         n = rng.choice([998, 999, 1000, 1001, 1400])
-        spec = {'k': 'smi', 's': 'C' * (n - 3) + rng.choice(['N', 'O', '[O-]']) + 'CC', 'edits': []}
+        if rng.random() < 0.4:
+            # rings at both ends: one bond more than atoms - the bond count crosses the three-digit column first
+            spec = {'k': 'smi', 's': 'C1CC1' + 'C' * (rng.choice([997, 998, 999]) - 6) + 'C1CC1', 'edits': []}
+        else:
+            spec = {'k': 'smi', 's': 'C' * (n - 3) + rng.choice(['N', 'O', '[O-]']) + 'CC', 'edits': []}
     elif r > 0.9 and not small:
         sub_cfg = dict(cfg, file_share=0.0, name_p=0.0, meta_p=0.0)
         spec = {'k': 'join', 'a': gen_mol_spec(rng, sub_cfg, True), 'b': gen_mol_spec(rng, sub_cfg, True),
